@@ -5,9 +5,11 @@ import ChythonModel.Proofs.C15Read
 import ChythonModel.Proofs.C15Cx
 import ChythonModel.Proofs.C15Rxn
 import ChythonModel.Proofs.C15Dict
+import ChythonModel.Proofs.C15Radicals
 import ChythonModel.Model.C15CgrTokens
 import ChythonModel.Model.C15Hash
 import ChythonModel.Model.C15Read
+import ChythonModel.Model.C15Radicals
 /-!
 # C15 — reactions: role-preserving I/O, order-free identity, exact condensed graph
 
@@ -438,5 +440,91 @@ def DynAtomHashInjective : Prop :=
     (known finding `C15/cgr-string/renumbering/hash-minus-one`, witness in `Findings/C15.lean`). -/
 theorem dyn_atom_hash_injective_partial :
     ((atomStates 6 [-4, -3, -2, 0, 1, 2, 3, 4]).map dynAtomHash).Nodup := by decide +kernel
+
+/-! ## part 9 — CXSMILES radical block on READING (`|^1:…|`): index resolution over the parsed molecules of all roles
+
+`readRxnRad natoms` (Model/C15Radicals.lean, driver op `readrad`) = the reaction branch of `smiles()` up to the call of
+`postprocess_parsed_reaction`: molecule strings per role + the `is_radical` flag of every parsed atom. The molecule parser
+enters through `natoms` (atom count of a molecule string) only. -/
+
+/-- **radical_index_resolution.** For all atom counts and all index lists: an index that is no atom is
+    `IncorrectSmiles`; otherwise every molecule keeps its atom count and the flag of the `i`-th atom — counted over
+    reactants, reagents, products in this order — is `i ∈ radicals`. -/
+theorem radical_index_resolution (counts rad : List Nat) :
+    ((∃ x ∈ rad, counts.sum ≤ x) → markRadicals counts rad = .error "IncorrectSmiles") ∧
+    ((∀ x ∈ rad, x < counts.sum) → ∃ F, markRadicals counts rad = .ok F ∧ F.map List.length = counts ∧
+        ∀ i (hi : i < F.flatten.length), F.flatten[i] = rad.contains i) :=
+  markRadicals_spec counts rad
+
+/-- **radical_indices_roundtrip.** The writer's enumeration (`n for n, r in enumerate(radicals) if r` over the
+    concatenated flags of all molecules) is inverted by the reader's resolution, for every list of molecules of any
+    sizes (empty molecules / roles included). -/
+theorem radical_indices_roundtrip (F : List (List Bool)) :
+    markRadicals (F.map List.length) (trueIdx F.flatten) = .ok F :=
+  markRadicals_trueIdx F
+
+/-- **cx_radicals_roundtrip.** `findall(cx_radicals, cxs)`, `int`, and the collision test applied to the CXSMILES token
+    of the written text give back exactly the written radical indices — with or without a fragment block behind them,
+    for every duplicate-free index list (the writer's lists are strictly increasing: `trueIdx_nodup`). -/
+theorem cx_radicals_roundtrip (roles : List (List Str)) (idx : List Nat) (gs : List (List Nat))
+    (hsp : ∀ c ∈ join chGt (roles.map (join chDot)), isSpace c = false)
+    (hne : join chGt (roles.map (join chDot)) ≠ [])
+    (hnd : idx.Nodup) :
+    radicalsOf (splitWs (render false ⟨roles, idx, gs⟩)) = idx :=
+  radicalsOf_render roles idx gs hsp hne hnd
+
+/-- the writer's index list is duplicate free, so `cx_radicals_roundtrip` applies to everything `formatRxn` emits -/
+theorem writer_radical_indices (rad : List Str → List Bool) (R A P : List (List Str)) :
+    (formatCore true (R.map (sigOf rad)) (A.map (sigOf rad)) (P.map (sigOf rad))).radicalIdx
+      = trueIdx ((R ++ A ++ P).map rad).flatten ∧ (trueIdx ((R ++ A ++ P).map rad).flatten).Nodup :=
+  ⟨formatCore_radicalIdx rad R A P, trueIdx_nodup _⟩
+
+/-- Full text-level statement incl. radical marks: reading the written text restores roles, molecules AND the
+    `is_radical` flag of every atom. `natoms` is the molecule parser's atom count; hypothesis `hn`: the parser yields as
+    many atoms for a written molecule string as the writer enumerated (in the written order) — a property of the
+    molecule writer / parser pair (C02/C03). -/
+def RxnReadWriteRadicalsFull : Prop :=
+  ∀ (rad : List Str → List Bool) (natoms : Str → Nat) (R A P : List (List Str)),
+    WrittenOK R → WrittenOK A → WrittenOK P → R ++ A ++ P ≠ [] →
+    (∀ m ∈ R ++ A ++ P, ∀ f ∈ m, ∀ c ∈ f, isSpace c = false) →
+    (∀ m ∈ R ++ A ++ P, natoms (join chDot m) = (rad m).length) →
+    readRxnRad natoms (formatRxn true false (R.map (sigOf rad)) (A.map (sigOf rad)) (P.map (sigOf rad))) =
+      .roles (R.map (join chDot)) (A.map (join chDot)) (P.map (join chDot)) (R.map rad) (A.map rad) (P.map rad)
+
+/-- **rxn_read_write_radicals.** The full statement holds: any roles (empty ones included), any fragment sizes, salts
+    (fragment contraction `f:` and radical indices `^1:` in one block), radical marks anywhere. -/
+theorem rxn_read_write_radicals : RxnReadWriteRadicalsFull :=
+  fun rad natoms R A P hR hA hP hne hsp hn => read_format_rad rad natoms R A P hR hA hP hne hsp hn
+
+/-- the same for the default (sorted) signature: molecules and their radical marks are restored in the canonical order -/
+theorem rxn_read_write_radicals_sorted (rad : List Str → List Bool) (natoms : Str → Nat) (R A P : List (List Str))
+    (hR : WrittenOK R) (hA : WrittenOK A) (hP : WrittenOK P) (hne : R ++ A ++ P ≠ [])
+    (hsp : ∀ m ∈ R ++ A ++ P, ∀ f ∈ m, ∀ c ∈ f, isSpace c = false)
+    (hn : ∀ m ∈ R ++ A ++ P, natoms (join chDot m) = (rad m).length) :
+    ∃ R' A' P' : List (List Str), R'.Perm R ∧ A'.Perm A ∧ P'.Perm P ∧
+      readRxnRad natoms (formatRxn false false (R.map (sigOf rad)) (A.map (sigOf rad)) (P.map (sigOf rad))) =
+        .roles (R'.map (join chDot)) (A'.map (join chDot)) (P'.map (join chDot))
+          (R'.map rad) (A'.map rad) (P'.map rad) :=
+  read_format_rad_sorted rad natoms R A P hR hA hP hne hsp hn
+
+/-- non-trivial instance: `[Na].C>O>` — a two-component reactant whose first atom is a radical, a reagent, no products
+    (written as `[Na].C>O> |^1:0,f:0.1|`): the hypotheses hold, so the text reads back to the roles and the flags -/
+example :
+    let na : Str := [91, 78, 97, 93]
+    let rad : List Str → List Bool := fun m => if m == [na, [67]] then [true, false] else [false]
+    let natoms : Str → Nat := fun s => if s == na ++ [46, 67] then 2 else 1
+    readRxnRad natoms (formatRxn true false [sigOf rad [na, [67]]] [sigOf rad [[79]]] []) =
+      .roles [na ++ [46, 67]] [[79]] [] [[true, false]] [[false]] [] := by
+  intro na rad natoms
+  have h := rxn_read_write_radicals rad natoms [[na, [67]]] [[[79]]] []
+    (by intro m hm; simp at hm; subst hm; refine ⟨by simp, ?_⟩; intro f hf; simp at hf; rcases hf with rfl | rfl <;> decide)
+    (by intro m hm; simp at hm; subst hm; refine ⟨by simp, ?_⟩; intro f hf; simp at hf; subst hf; decide)
+    (by intro m hm; cases hm)
+    (by simp)
+    (by intro m hm f hf c hc; simp at hm; rcases hm with rfl | rfl <;> simp at hf
+        · rcases hf with rfl | rfl <;> revert c <;> decide
+        · subst hf; revert c; decide)
+    (by intro m hm; simp at hm; rcases hm with rfl | rfl <;> decide)
+  exact h
 
 end ChythonModel.Props.C15
